@@ -9,3 +9,6 @@ func VerifYield(string) {}
 
 // VerifWrapRoot is the identity without the "verif" build tag.
 func VerifWrapRoot(root VectorOperator, _ string, _, _, _ int64) VectorOperator { return root }
+
+// VerifPoolPut is a no-op without the "verif" build tag.
+func VerifPoolPut([]uint64, []float64, []StepVector) {}
